@@ -589,8 +589,8 @@ func (r *Runtime) arrayproto_unshift(call FunctionCall) Value {
 
 func (r *Runtime) arrayproto_at(call FunctionCall) Value {
 	o := call.This.ToObject(r)
-	idx := call.Argument(0).ToInteger()
 	length := toLength(o.self.getStr("length", nil))
+	idx := call.Argument(0).ToInteger()
 	if idx < 0 {
 		idx = length + idx
 	}
@@ -1267,9 +1267,9 @@ func (r *Runtime) arrayproto_flatMap(call FunctionCall) Value {
 
 func (r *Runtime) arrayproto_with(call FunctionCall) Value {
 	o := call.This.ToObject(r)
+	length := toLength(o.self.getStr("length", nil))
 	relativeIndex := call.Argument(0).ToInteger()
 	value := call.Argument(1)
-	length := toLength(o.self.getStr("length", nil))
 
 	actualIndex := int64(0)
 	if relativeIndex >= 0 {
